@@ -235,7 +235,7 @@ Fixpoint parse_string_body (fuel : nat) (s : str) (acc : str) : option (str * st
   | S fu =>
       match s with
       | [] => None
-      | 34 :: r => Some (rev acc, r)
+      | 34 :: r => Some (rev_append acc [], r)
       | 92 :: r =>
           match parse_escape r with
           | Some (c, r') => parse_string_body fu r' (c :: acc)
